@@ -68,12 +68,12 @@ theorem copy_post (st st' : FS) (src dst : Bytes) (script : List Nat)
 /-- **remove_dir_all_post**: whenever `remove_dir_all(p)` returns Ok, `p` named a directory, nothing is left at or
 below it, and every location that is not below it — symlink targets, siblings, ancestors — looks exactly as
 before. -/
-theorem remove_dir_all_post (st st' : FS) (p : Bytes) (h : removeDirAll st p = (st', .ok ())) :
+theorem remove_dir_all_post (exact : Bool) (st st' : FS) (p : Bytes) (h : removeDirAllOn exact st p = (st', .ok ())) :
     ∃ loc, (∃ tr, parsePath st p = .ok (loc, tr)) ∧ loc ≠ [] ∧
       (∃ es, getAt st.root loc = some (.dir es)) ∧
       (∀ q, loc <+: q → getAt st'.root q = none) ∧
       (∀ q, ¬ loc <+: q → view st'.root q = view st.root q) :=
-  remove_dir_all_post' st st' p h
+  remove_dir_all_post' exact st st' p h
 
 /-! ## create_dir_all -/
 
